@@ -1306,6 +1306,11 @@ def r14_separator_commits(a, tier):
     return rep
 
 
+def r15_rule_and_grammar_optimized(a, tier):
+    from .c01_optimizer import rule_and_grammar_optimized
+    return rule_and_grammar_optimized(a, 'C01.R15')
+
+
 RULES = [r_chain, r1_frames, r1b_semantic_failures, r1c_control_containment, r2_cst, r3_ordered_choice, r4_progress, r5_state_stack,
          r6_defines_cover_operands, r7_what_a_frame_keeps, r7b_negative_lookahead,
-         r8_leaf_protocol, r9_engine_contracts, r10_model_values, r11_optimizer, r12_text_to_model, r13_calls_keep_their_rule, r14_separator_commits]
+         r8_leaf_protocol, r9_engine_contracts, r10_model_values, r11_optimizer, r12_text_to_model, r13_calls_keep_their_rule, r14_separator_commits, r15_rule_and_grammar_optimized]
